@@ -983,4 +983,7 @@ func gen(t *rapid.T) Prog {
 }
 
 func TestPropNeverRerun(t *testing.T) { prog.Check(t, propID, testName, gen, run) }
-func TestReplay(t *testing.T)         { prog.Replay(t, propID, testName, run) }
+func TestReplay(t *testing.T) {
+	prog.Replay(t, propID, testName, run)
+	prog.Replay(t, propID, storeTest, runShared)
+}
